@@ -20,22 +20,24 @@ Cases == ndJsonDeserialize(IOEnv.CASES)
 
 \* recorded observation -> the Obs record shape
 RObs(o) == [finished |-> o.finished, completed |-> o.completed, premature |-> o.premature, valid |-> o.valid,
-            invalid |-> o.invalid, history_len |-> o.history_len, started |-> o.started]
+            invalid |-> o.invalid, history_len |-> o.history_len, started |-> o.started, argid |-> o.argid]
 
-RECURSIVE Walk(_, _, _, _, _)
-\* returns <<>> or a one-element sequence with the first failure of the trace
-Walk(tr, cf, st, a, j) ==
+RECURSIVE Walk(_, _, _, _, _, _)
+\* returns the first contract violation of the trace, preceded by its first model drift if any.  The model
+\* state is driven by the calls alone (cfg.n / cfg.valid are measured on the real code), so a drift does not
+\* stop the contract clauses from being evaluated on the rest of the trace.
+Walk(tr, cf, st, a, j, drifted) ==
   IF j > Len(tr.calls) THEN <<>>
   ELSE LET ev == tr.calls[j]
            b == RObs(ev.obs)
-           cl == ClauseFail(cf, ev.hasarg = 1, a, b, ev.call, ev.ret)
            m == Do(cf, st, ev.call)
+           cl == ClauseFail(cf, ev.hasarg = 1, st.started, a, b, ev.call, ev.ret)
        IN IF cl # "" THEN <<[id |-> tr.id, kind |-> "violation", clause |-> cl, event |-> j, call |-> ev.call,
                              ret |-> ev.ret, cfg |-> cf, pre |-> a, post |-> b]>>
-          ELSE IF cf.tmo # 2 /\ (m.ret # ev.ret \/ Obs(cf, m.st) # b)
+          ELSE IF ~drifted /\ cf.tmo # 2 /\ (m.ret # ev.ret \/ Obs(cf, m.st) # b)
           THEN <<[id |-> tr.id, kind |-> "drift", clause |-> "ModelStep", event |-> j, call |-> ev.call,
-                  ret |-> ev.ret, cfg |-> cf, pre |-> a, post |-> b]>>
-          ELSE Walk(tr, cf, m.st, b, j + 1)
+                  ret |-> ev.ret, cfg |-> cf, pre |-> a, post |-> b]>> \o Walk(tr, cf, m.st, b, j + 1, TRUE)
+          ELSE Walk(tr, cf, m.st, b, j + 1, drifted)
 
 Failures(tr) ==
   LET cf == [mode |-> tr.mode, n |-> tr.n, valid |-> tr.valid, limit |-> tr.limit, tmo |-> tr.tmo]
@@ -43,8 +45,8 @@ Failures(tr) ==
       a0 == RObs(tr.obs0)
   IN IF a0 # Obs(cf, st0)
      THEN <<[id |-> tr.id, kind |-> "drift", clause |-> "InitialState", event |-> 0, call |-> "", ret |-> "",
-             cfg |-> cf, pre |-> a0, post |-> a0]>>
-     ELSE Walk(tr, cf, st0, a0, 1)
+             cfg |-> cf, pre |-> a0, post |-> a0]>> \o Walk(tr, cf, st0, a0, 1, TRUE)
+     ELSE Walk(tr, cf, st0, a0, 1, FALSE)
 
 VARIABLES i, bad
 B == INSTANCE Batch
